@@ -253,6 +253,31 @@ def Iter.drain : Nat → Iter → Option (List Str)
         | none => none
     else some []
 
+/-- The constructor of `IteratorDictStringPFC` with `offset` internal strings to discard: the header is
+copied and `offset - 1` strings are decoded, so that the first `next()` decodes the string at in-bucket
+position `offset`. -/
+def Iter.open (ptr : List UInt8) (offset bucketsize scanneable : Nat) : Option Iter :=
+  if offset > 0 then
+    match readCStr ptr with
+    | none => none
+    | some (h, rest) =>
+      match decodeSteps (offset - 1) rest h with
+      | none => none
+      | some (cur, rest') =>
+        some { ptr := rest', pos := offset, bucketsize := bucketsize, cur := cur, processed := 0, scanneable := scanneable }
+  else some { ptr := ptr, pos := 0, bucketsize := bucketsize, cur := [], processed := 0, scanneable := scanneable }
+
+/-- The string iterator over the ID range `[left, right]` (`extractPrefix` after `locatePrefix`), drained. -/
+def scanRange (d : T) (left right : Nat) : Option (List Str) :=
+  let leftbucket := 1 + (left - 1) / d.bucketsize
+  let leftpos := (left - 1) % d.bucketsize
+  match bucketPtr d leftbucket with
+  | none => none
+  | some p =>
+    match Iter.open p leftpos d.bucketsize (right - left + 1) with
+    | none => none
+    | some it => Iter.drain d.elements it
+
 /-- `extractTable()`. -/
 def table (d : T) : Option (List Str) :=
   match bucketPtr d 1 with
